@@ -19,13 +19,18 @@ Variant(v) ==
       [] v = 1 -> << [name |-> "b", fields |-> <<SigF("endianess", [s |-> "big"])>>] >>
       [] v = 2 -> << [name |-> "c", fields |-> <<SigF("mux_count", [i |-> 4]), SigF("mux_signal", [s |-> "a"])>>] >>
 
-MkD(ta, tb, tc, ida, v, buses) ==
+(* dup: the same struct bound a second time with OTHER per-signal options *)
+MkD2(ta, tb, tc, ida, v, buses, dup) ==
     [structs |-> <<InnerD, [name |-> "Root", fields |->
                       <<FieldPU("a", ida, ta, "m"), FieldP("b", 1 - ida, tb), FieldP("c", 2, tc)>>]>>,
      enums |-> Enums,
      impls |-> << [name |-> "Root", protocol |-> "can", type |-> "Root",
                    fields |-> <<SigF("id", [i |-> 10])>> \o (IF buses THEN <<SigF("bus", [s |-> "b2"])>> ELSE <<>>),
                    signals |-> Variant(v)] >>
+                \o (IF dup THEN << [name |-> "Again", protocol |-> "can", type |-> "Root",
+                                    fields |-> <<SigF("id", [i |-> 11])>>, signals |-> Variant((v + 1) % 3)],
+                                   [name |-> "Third", protocol |-> "can", type |-> "Root",
+                                    fields |-> <<SigF("id", [i |-> 12])>>, signals |-> Variant((v + 2) % 3)] >> ELSE <<>>)
                 \o (IF buses THEN << [name |-> "SinMsg", protocol |-> "can", type |-> "Sin",
                                       fields |-> <<SigF("id", [i |-> 2047]), SigF("bus", [s |-> "b2"])>>, signals |-> <<>>],
                                      [name |-> "Other", protocol |-> "can", type |-> "Sin",
@@ -34,6 +39,8 @@ MkD(ta, tb, tc, ida, v, buses) ==
                                       fields |-> <<SigF("id", [i |-> 10])>>, signals |-> <<>>] >>
                     ELSE <<>>)]
 
+MkD(ta, tb, tc, ida, v, buses) == MkD2(ta, tb, tc, ida, v, buses, FALSE)
+
 BeLeavesOk(S) == \A impl \in Range(CanImpls(S)) :
                     \A l \in Range(LayoutOf(S, impl, TRUE)) : l.endian = "big" => BeOk(l)
 
@@ -41,4 +48,7 @@ DbcSchemas == { S \in { MkD(ta, tb, tc, ida, v, bu) : ta \in PoolA, tb \in PoolB
                                                      ida \in {0, 1}, v \in 0..2, bu \in BOOLEAN } :
                    Generable(S) /\ BeLeavesOk(S)
                    /\ (S.impls[1].signals = <<>> \/ Len(S.impls) = 1) }
+              \cup { S \in { MkD2(ta, tb, tc, 0, v, FALSE, TRUE) : ta \in {U(8), U(5)}, tb \in {U(16), I(16), U(8), U(5)},
+                                                                   tc \in {U(5), I(16)}, v \in 0..2 } :
+                       Generable(S) /\ BeLeavesOk(S) }
 =============================================================================
